@@ -34,6 +34,7 @@ RULE = ('one evaluation = one simulated run: a victim client performs a short se
         'keeps it for a virtual duration shorter or longer than the victim\'s timeout; the outcome is compared with the same call '
         'run without the holder, and the physical rows and the directory listing before and after are compared; non-trivial = the '
         'holder obtained the lock during the call; distinct = SHA-256 of the seam event log')
+RULE += ' ' + "In one case in seven (Cache / FanoutCache / DjangoCache targets with an evicting policy) the size limit is put at the present volume before the call, so the call's write also evicts (cull_limit 1-2)."
 ASSUMPTIONS = ['the holder is a raw connection holding BEGIN IMMEDIATE (what a long transaction, check() or a slow writer in another process looks like)',
                'SQLite busy timeout is emulated event-driven in virtual time']
 PROBES = ('lock_taken', 'timeout_raised', 'failure_value', 'retry_waited', 'lock_before_begin_after_file', 'lockfree_lookup_under_lock',
